@@ -306,6 +306,17 @@ def prop_binary(case, ctx):
         got = ctx.lib(teneva.accuracy, F1, F2)
         ref = math.sqrt(num2) / math.sqrt(den2)
         ctx.check(abs(got - ref) <= 1e-10 * ref, "accuracy(ndarray)", got=float(got), ref=ref)
+    # an operand that denotes the zero tensor through ONE zero core while its other cores are huge (a product like
+    # mul(B, 0.) of a large-scale B): relative to a non-zero reference its distance is exactly the reference norm
+    if den2 > 0 and d * 45 < 300:
+        j0 = int(c2 * 7) % d if np.isfinite(c2) else 0
+        Zb = [np.zeros_like(np.asarray(G, dtype=float)) if k == j0 else np.asarray(G, dtype=float) * 1e45 + (1e45 if not np.any(G) else 0.0) for k, G in enumerate(Y1)]
+        got = ctx.lib(teneva.accuracy, Zb, Y2)
+        if math.sqrt(den2) >= 1e-100 * 4:
+            ctx.check(abs(float(got) - 1.0) <= 1e-9, "accuracy(zero tensor with one zero core and huge other cores, Y2) is not 1", got=float(got))
+        got = ctx.lib(teneva.mul_scalar, Zb, Y2)
+        ctx.check(float(got) == 0.0, "mul_scalar with a structurally zero operand is not exactly 0", got=float(got))
+        ctx.label("huge_zero_operand")
     Iarr = np.array(case["I"], dtype=int)
     y = np.array(case["y"][:len(Iarr)]) * 10.0 ** case.get("yscale10", 0)       # data far smaller / larger than the tensor, too
     ny = float(np.linalg.norm(y))
